@@ -54,9 +54,24 @@ def register(R):
             'result_untouched': same_value(c.engine, c.new.st, c.newf('_result'), c.oldf('_result')),
         }
 
+    def set_exception_call_site(c):
+        # call-site rule (nothing is assumed from it at the function's own root): inside the package nobody overrides a
+        # recorded outcome -- "the first failure or cancellation recorded is the one reported"; only the public
+        # TransferFuture.set_exception (documented: only once the transfer is done) passes override=True
+        if c.engine.cur_root_target_inline == f'{TC}.set_exception':
+            return []
+        if c.engine.cur_root_target_inline in (f'{TF}.set_exception',):
+            return []
+        ov = c.args.get('override')
+        falsy = ov is False or ov is None or (isinstance(ov, tuple) and len(ov) == 2 and ov[0] == '$default')
+        if not falsy and z3.is_expr(ov):
+            return [('recorded_outcome_is_never_overridden_inside_the_package', z3.Not(ov), ['C17', 'C07', 'C03'])]
+        return [('recorded_outcome_is_never_overridden_inside_the_package', z3.BoolVal(bool(falsy)), ['C17', 'C07', 'C03'])]
+
     R.contract(
         f'{TC}.set_exception', props=['C17', 'C03', 'C05'], self_type=SHARED, old_at='acquire',
         params=dict(exception=ExtT('exception'), override=Bool),
+        requires=set_exception_call_site,
         ensures=set_exception_post,
         twins=lambda c: {'always_overrides': S(c.newf('_status')) == z3.StringVal('failed')},
     )
